@@ -69,6 +69,15 @@ func runC11(c *Ctx) {
 					c.ok(fn, what, st.Pos(), "reset to 0")
 					continue
 				}
+				if wc, ok := v.(*ssa.Call); ok {
+					// the wrap moved into a helper: cur = wrap(cur + amount)
+					if callee := wc.Call.StaticCallee(); callee != nil && isWrapHelper(callee, size) && len(wc.Call.Args) == 2 {
+						if add, ok := stripConv(wc.Call.Args[1]).(*ssa.BinOp); ok && add.Op == token.ADD && loadOfField(add.X, cur) {
+							c.ok(fn, what, st.Pos(), "advance wrapped by "+callee.Name())
+							continue
+						}
+					}
+				}
 				bo, ok := v.(*ssa.BinOp)
 				if !ok {
 					c.bad(fn, what, st.Pos(), "unrecognised update of %s", cur.Name())
@@ -209,7 +218,11 @@ func runC11(c *Ctx) {
 			}
 		}
 		for _, a := range storesTo(fn, spec.cur) {
-			if bo, ok := stripConv(a.Val).(*ssa.BinOp); ok && bo.Op == token.ADD && loadOfField(bo.X, spec.cur) && stripConv(bo.Y) == am {
+			v := stripConv(a.Val)
+			if wc, ok := v.(*ssa.Call); ok && wc.Call.StaticCallee() != nil && isWrapHelper(wc.Call.StaticCallee(), size) && len(wc.Call.Args) == 2 {
+				v = stripConv(wc.Call.Args[1])
+			}
+			if bo, ok := v.(*ssa.BinOp); ok && bo.Op == token.ADD && loadOfField(bo.X, spec.cur) && stripConv(bo.Y) == am {
 				curOK = true
 			}
 		}
@@ -411,4 +424,46 @@ func sameCellLoad(a, b ssa.Value) bool {
 	}
 	ca, cb := cellOf(ua.X), cellOf(ub.X)
 	return ca != nil && ca == cb
+}
+
+// isWrapHelper: f(index) returns index when index < size and index - size otherwise (or index % size).
+func isWrapHelper(f *ssa.Function, size *types.Var) bool {
+	if f.Blocks == nil || len(f.Params) != 2 {
+		return false
+	}
+	prm := f.Params[1]
+	rets := returnsOf(f)
+	if len(rets) != 1 || len(rets[0].Results) != 1 {
+		return false
+	}
+	v := stripConv(rets[0].Results[0])
+	if bo, ok := v.(*ssa.BinOp); ok && bo.Op == token.REM && stripConv(bo.X) == ssa.Value(prm) && loadOfField(bo.Y, size) {
+		return true
+	}
+	ph, ok := v.(*ssa.Phi)
+	if !ok || len(ph.Edges) != 2 {
+		return false
+	}
+	same, sub := false, false
+	for i, e := range ph.Edges {
+		e = stripConv(e)
+		ls := litsAt(ph.Block(), ph.Block().Preds[i])
+		if e == ssa.Value(prm) {
+			for _, l := range ls {
+				op, x, y, ok := l.cmp()
+				if ok && op == token.LSS && stripConv(x) == ssa.Value(prm) && loadOfField(y, size) {
+					same = true
+				}
+			}
+		}
+		if bo, ok := e.(*ssa.BinOp); ok && bo.Op == token.SUB && stripConv(bo.X) == ssa.Value(prm) && loadOfField(bo.Y, size) {
+			for _, l := range ls {
+				op, x, y, ok := l.cmp()
+				if ok && op == token.GEQ && stripConv(x) == ssa.Value(prm) && loadOfField(y, size) {
+					sub = true
+				}
+			}
+		}
+	}
+	return same && sub
 }
